@@ -84,7 +84,7 @@ def run(ctx):
     nmax = 7 if q else 10
     rows = []
     if ctx.want("mc"):
-        rows = ctx.table("merkle/MC_Merkle.tla", "MC_Merkle.cfg", workers=8, timeout=3000,
+        rows = ctx.table("merkle/MC_Merkle.tla", "MC_Merkle.cfg", workers=8, timeout=7200,
                          env={"NMAX": nmax, "EXPORT": 1, "ADVN": 3 if q else 4, "ADVFLAGS": 5 if q else 6, "ADVHASHES": 3})
         ctx.exhaustive.append("MC_Merkle: all n <= %d x all match subsets (%d proofs): Verify(Build) = matches; adversary over n=%d" % (nmax, len(rows), 3 if q else 4))
         n_ = 0
@@ -240,7 +240,7 @@ def run(ctx):
         else:
             send.append(c)
     bad = ctx.validate("merkle/C17Cases.tla", [dict((k, v) for k, v in c.items() if k != "only_target") for c in send if not (c["kind"] == "bits" and c.get("only_target") and c["target_ok"])]
-                       , "C17Cases.cfg", timeout=3000, per_shard_min=30)
+                       , "C17Cases.cfg", timeout=7200, per_shard_min=30)
     for cid, why in bad.items():
         c = byid[cid]
         cls = c.get("alter", "") if c["kind"] == "altered" else ("exp<3" if c["kind"] == "bits" and c["bits"][3] < 3 else "")
